@@ -589,6 +589,73 @@ theorem hist_normalize (P : Params K) (ops : List (Op K)) (c0 : CSys K) (h0 : Co
     unfold stepC
     cases c.normalizeC P <;> rfl
 
+/-- **hist_normalize_full**: `normalize` of a FULLY PERIODIC system at any point of any history on an object whose
+    cell went through the setter (`Clean`, true for every `Box`): of the three writes of the cell vectors only the
+    rebuilt cell (`hc2`: no tilt factor of the LAMMPS cell below `tiny` of its largest component) can be altered by
+    the clean-up of the setter — the reversal of a left-handed cell never is (`zeroSmall_flipC`), the wrap of a
+    fully periodic system does not change the cell (`wrap_box_full`). -/
+theorem hist_normalize_full (P : Params K) (ht0 : 0 ≤ P.tiny) (ht1 : P.tiny < 1)
+    (ops : List (Op K)) (c0 : CSys K) (h0 : Coherent c0) (hc0 : Clean P.tiny c0)
+    (hp : (runC P c0 ops).1.pbc = ⟨true, true, true⟩)
+    (hc2 : let s := (runC P c0 ops).1.erase
+      ∀ b2, abcBox? P.sqrt (flip s.box).vects = some b2 → zeroSmall P.tiny b2.vects = b2.vects) :
+    let c := (runC P c0 ops).1
+    c.normalizeC P = normalize? P.fl P.pad P.sqrt c.box c.pbc c.pos ∧ (stepC P c .normalize).1 = c := by
+  have hclean : Clean P.tiny (runC P c0 ops).1 := clean_runC P ht0 ht1 ops c0 hc0
+  apply hist_normalize P ops c0 h0
+  · intro s _
+    exact zeroSmall_flipC P.tiny s.box hclean
+  · exact hc2
+  · intro s b2 hb
+    have hpb : s.pbc = ⟨true, true, true⟩ := hp
+    rw [hpb, wrap_box_full]
+    exact hc2 b2 hb
+
+/-- lengths, cosines and angles are functions of the Gram matrix alone — whatever `sqrt` and `arccos` are. -/
+theorem lengths_angles_of_gram (sqrt arccos : K → K) (v w : M3 K) (h : gram w = gram v) :
+    lenA sqrt w = lenA sqrt v ∧ lenB sqrt w = lenB sqrt v ∧ lenC sqrt w = lenC sqrt v ∧
+    cosAlpha sqrt w = cosAlpha sqrt v ∧ cosBeta sqrt w = cosBeta sqrt v ∧ cosGamma sqrt w = cosGamma sqrt v ∧
+    arccos (cosAlpha sqrt w) = arccos (cosAlpha sqrt v) ∧ arccos (cosBeta sqrt w) = arccos (cosBeta sqrt v) ∧
+    arccos (cosGamma sqrt w) = arccos (cosGamma sqrt v) := by
+  rw [gram_entries, gram_entries] at h
+  simp only [M3.mk.injEq, V3.mk.injEq] at h
+  obtain ⟨⟨g00, g01, g02⟩, ⟨_, g11, g12⟩, ⟨_, _, g22⟩⟩ := h
+  simp only [lenA, lenB, lenC, cosAlpha, cosBeta, cosGamma, g00, g01, g02, g11, g12, g22, and_self]
+
+/-- **normalize_lengths_angles**: "the same lengths, angles and volume" in the code's own terms: `Box.a/b/c`
+    (`sqrt` of the squared norms) and `Box.alpha/beta/gamma` (`arccos` of the cosines `vect_angle` forms) of the new
+    cell are those of the (reversed, if left-handed) old cell, for EVERY pair of functions `sqrt`, `arccos`; in terms
+    of the cell handed in: `a, b, c, gamma` are kept, `alpha, beta` are kept for a right-handed cell and their
+    cosines change sign for a left-handed one (third vector reversed); the volume is `|det|`. -/
+theorem normalize_lengths_angles (fl : K → Int) (pad : K) (sqrt arccos : K → K) (b : Box K) (hdet : M3.det b.vects ≠ 0)
+    (hs : SqrtOK sqrt (flip b).vects) (pos : List (V3 K)) (r : Normalized K)
+    (hr : normalize? fl pad sqrt b ⟨true, true, true⟩ pos = some r) :
+    lenA sqrt r.box.vects = lenA sqrt (flip b).vects ∧ lenB sqrt r.box.vects = lenB sqrt (flip b).vects ∧
+    lenC sqrt r.box.vects = lenC sqrt (flip b).vects ∧
+    arccos (cosAlpha sqrt r.box.vects) = arccos (cosAlpha sqrt (flip b).vects) ∧
+    arccos (cosBeta sqrt r.box.vects) = arccos (cosBeta sqrt (flip b).vects) ∧
+    arccos (cosGamma sqrt r.box.vects) = arccos (cosGamma sqrt (flip b).vects) ∧
+    lenA sqrt r.box.vects = lenA sqrt b.vects ∧ lenB sqrt r.box.vects = lenB sqrt b.vects ∧
+    lenC sqrt r.box.vects = lenC sqrt b.vects ∧ cosGamma sqrt r.box.vects = cosGamma sqrt b.vects ∧
+    (0 < triple b.vects → cosAlpha sqrt r.box.vects = cosAlpha sqrt b.vects ∧
+      cosBeta sqrt r.box.vects = cosBeta sqrt b.vects) ∧
+    (triple b.vects < 0 → cosAlpha sqrt r.box.vects = - cosAlpha sqrt b.vects ∧
+      cosBeta sqrt r.box.vects = - cosBeta sqrt b.vects) ∧
+    M3.det r.box.vects = |M3.det b.vects| := by
+  obtain ⟨hg, ⟨n0, n1, n2, d01⟩, hpos, hneg, hvol⟩ := normalize_gram fl pad sqrt b hdet hs pos r hr
+  obtain ⟨l1, l2, l3, _, _, _, a1, a2, a3⟩ := lengths_angles_of_gram sqrt arccos _ _ hg
+  refine ⟨l1, l2, l3, a1, a2, a3, ?_, ?_, ?_, ?_, ?_, ?_, hvol⟩
+  · simp only [lenA, n0]
+  · simp only [lenB, n1]
+  · simp only [lenC, n2]
+  · simp only [cosGamma, lenA, lenB, n0, n1, d01]
+  · intro h
+    obtain ⟨d02, d12⟩ := hpos h
+    simp only [cosAlpha, cosBeta, lenA, lenB, lenC, n0, n1, n2, d02, d12, and_self]
+  · intro h
+    obtain ⟨d02, d12⟩ := hneg h
+    simp only [cosAlpha, cosBeta, lenA, lenB, lenC, n0, n1, n2, d02, d12, neg_div, and_self]
+
 /-! ## non-vacuity: concrete states meeting the hypotheses -/
 
 /-- a rational square root good enough for the 3-4-5 example cell. -/
@@ -630,6 +697,14 @@ example : (exSys.normalizeC exPar).map (fun z => (z.box, z.pos, z.flags, z.trans
       (fun z => (z.box, z.pos, z.flags, z.transform)) := by
   decide +kernel
 example : (exSys.normalizeC exPar).isSome = true := by decide +kernel
+
+/-- a history with an edit of the positions, ending fully periodic: the hypotheses of `hist_normalize_full` hold. -/
+def exHist2 : List (Op ℚ) := [.spos, .setPos [⟨1, 1, 1⟩, ⟨-7, 9/2, 23/2⟩], .wrap, .setOrigin ⟨0, 1/2, 0⟩]
+example : (runC exPar exSys exHist2).1.pbc = ⟨true, true, true⟩ := by decide +kernel
+example : (runC exPar exSys exHist2).1.pos.length = 2 := by decide +kernel
+example : triple (runC exPar exSys exHist2).1.box.vects < 0 := by decide +kernel
+example : ((abcBox? exPar.sqrt (flip (runC exPar exSys exHist2).1.erase.box).vects).map
+    (fun b2 => decide (zeroSmall exPar.tiny b2.vects = b2.vects))) = some true := by decide +kernel
 
 /-- at ℝ (real floor, real square root) every non-singular cell meets all hypotheses: normalize is
     defined and yields a right-handed LAMMPS cell. -/
